@@ -248,11 +248,12 @@ class ExcEngine:
         handler_stack: list = []  # types of enclosing except handlers (for bare raise)
         owner_cfg = {}
 
-        def key_guarded(sub: ast.Subscript, dnode) -> bool:
-            """subscript key dominated by `key in D` (true edge) / `key not in D` (false edge)?"""
+        def key_guarded(sub, dnode=None, key=None, container=None) -> bool:
+            """use of `key` with `container` dominated by `key in container` (true edge) /
+            `key not in container` (false edge)?"""
             cfg = cfg_of(fi)
-            ktxt = ast.unparse(sub.slice)
-            dtxt = ast.unparse(sub.value)
+            ktxt = ast.unparse(key if key is not None else sub.slice)
+            dtxt = ast.unparse(container if container is not None else sub.value)
             here = None
             for cn in cfg.nodes:
                 for r in node_exprs(cn):
@@ -320,7 +321,12 @@ class ExcEngine:
                     if not key_guarded(node, md[0]):
                         emit("KeyError", f"lookup in module-level dict `{ast.unparse(node.value)}` with a key not checked by `in`", node, guards)
             if isinstance(node, ast.Call):
-                self._call(node, fi, scls, guards, emit, propagate)
+                self._call(node, fi, scls, guards, emit, propagate, key_guarded)
+            if isinstance(node, ast.Attribute) and isinstance(node.ctx, ast.Load) and isinstance(node.value, ast.Name) and scls is not None:
+                if node.value.id == self.p._self_name(fi):
+                    r = self.p.find_member(scls, node.attr)
+                    if r and r[0] == "property" and r[1].getter is not None:
+                        propagate(r[1].getter, ast.Call(func=node, args=[], keywords=[], lineno=node.lineno, col_offset=node.col_offset), guards, ccls=scls, self_shift=1)
             for ch in ast.iter_child_nodes(node):
                 visit(ch, guards)
 
@@ -435,7 +441,7 @@ class ExcEngine:
             return self._textual(a.body, fi) or self._textual(a.orelse, fi)
         return True  # names, attributes, subscripts of unknown kind
 
-    def _call(self, node: ast.Call, fi, scls, guards, emit, propagate):
+    def _call(self, node: ast.Call, fi, scls, guards, emit, propagate, key_guarded):
         f = node.func
         p = self.p
         # ---- builtins
@@ -468,7 +474,8 @@ class ExcEngine:
                     if f.attr == "encode" and cname not in TOTAL_ENCODE and not (cname is None and not node.args and not node.keywords):
                         emit("UnicodeEncodeError", f"strict .encode({cname or 'variable codec'}) of a non-constant string", node, guards)
             if f.attr == "index" and len(node.args) >= 1 and not isinstance(f.value, ast.Constant):
-                emit("ValueError", ".index() of a value that may be absent", node, guards)
+                if not key_guarded(node, key=node.args[0], container=f.value):
+                    emit("ValueError", ".index() of a value that may be absent", node, guards)
         # ---- project callees
         targets = p.resolve_callee(f, fi, scls)
         self_shift = 0
